@@ -2,7 +2,7 @@
    Only statements here; proofs live in MJ.C13.Proofs.
    Budgets: every B >= 0 (all of u64 and beyond); instruction costs: any non-negative numbers
    (the code's are 0 or 1); renders: ANY deterministic step system. *)
-From MJ Require Import Common.Base C13.Model C13.Spec C13.Proofs.
+From MJ Require Import Common.Base C13.GenFuelTable C13.Model C13.Spec C13.Proofs.
 
 (* An observer that can only abort: the watched run is the free run cut by the observer folded
    over the free run's trace -- same steps, same result unless the observer refuses. *)
@@ -81,6 +81,20 @@ Theorem exec_matches_spec : forall evs B, 0 <= B -> Forall nonneg (costs_of evs)
             (threshold c <= B -> fuel_levels t = spec_levels c B).
 Proof. exact exec_matches_spec_proof. Qed.
 
+(* The real cost function (the table generated from vm/fuel.rs::fuel_for_instruction): for every
+   executed trace of real opcodes, the tracker over the trace's costs succeeds exactly for the
+   budgets at or above threshold(sum of the table over the trace) and then reports (c, B - c). *)
+Theorem trace_threshold : forall ops costs B, stream_costs ops = Some costs -> 0 <= B ->
+  let c := total costs in
+  exists pre, watch track (new B) costs =
+    (pre, mk_tracker B (if threshold c <=? B then B - c else 0), threshold c <=? B).
+Proof. exact trace_threshold_proof. Qed.
+
+(* every opcode of the table costs a non-negative amount, every trace of opcodes has costs *)
+Theorem trace_costs_defined : forall ops costs, stream_costs ops = Some costs ->
+  Forall nonneg costs /\ length costs = length ops.
+Proof. intros ops costs H. split; [exact (stream_costs_nonneg ops costs H)|exact (stream_costs_length ops costs H)]. Qed.
+
 (* non-vacuity: a concrete step system (state = costs still to execute, result 42) *)
 Definition demo_next (l : list Z) : (Z * list Z) + Z :=
   match l with [] => inr 42 | c :: r => inl (c, r) end.
@@ -90,7 +104,9 @@ Example fuel_threshold_witness :
   render_with_fuel demo_next 10 [1; 0; 1] 2 = ([1; 0], Some (Aborted (mk_tracker 2 0))) /\
   render_with_fuel demo_next 10 [1; 0; 1] (2 ^ 64 - 1) = ([1; 0; 1], Some (Done 42 (mk_tracker (2 ^ 64 - 1) (2 ^ 64 - 3)))) /\
   render_with_fuel demo_next 10 [0; 0] 0 = ([0; 0], Some (Done 42 (mk_tracker 0 0))) /\
-  exec (new 3) [Instr 1; Probe; Instr 1; Probe; Instr 1] = (mk_tracker 3 0, false, [(1, 2); (2, 1)]).
+  exec (new 3) [Instr 1; Probe; Instr 1; Probe; Instr 1] = (mk_tracker 3 0, false, [(1, 2); (2, 1)]) /\
+  (* every opcode of the generated table, once: the table is a function of the opcode *)
+  stream_costs (map fst fuel_table) = Some (map snd fuel_table).
 Proof. vm_compute. repeat split. Qed.
 
 Print Assumptions monitor_prefix.
@@ -102,3 +118,5 @@ Print Assumptions render_states_reachable.
 Print Assumptions fuel_deterministic.
 Print Assumptions fuel_accumulates.
 Print Assumptions exec_matches_spec.
+Print Assumptions trace_threshold.
+Print Assumptions trace_costs_defined.
